@@ -165,6 +165,10 @@ class Interp:
     def ev(self, e, st):
         m = getattr(self, 'ev_' + type(e).__name__, None)
         if m is None:
+            # an expression form the recogniser extraction has no rule for (subscript, arithmetic, ...): when nothing in it
+            # can consume a token (no call on the parser, no call at all) its value is irrelevant to the language
+            if not any(isinstance(x, (ast.Call, ast.Await, ast.Yield, ast.YieldFrom, ast.NamedExpr)) for x in ast.walk(e)):
+                return [(st, ('opaque',))]
             raise Unsupported('expr %s at line %s' % (type(e).__name__, getattr(e, 'lineno', '?')))
         return m(e, st)
 
